@@ -157,6 +157,18 @@ func init() {
 		},
 	})
 	register(&Prop{
+		ID:          "C16",
+		HarnessDirs: []string{"astsig", "c16"},
+		Pkg:         "github.com/cloudwego/thriftgo/tool/trimmer/trim",
+		Diff:        []string{"D_C16_1", "D_C16_2"},
+		Functions:   []string{"trim.doTrimAST", "trim.(*Trimmer).markAST/markService/markFunction/markType/markStructLike/markTypeDef/markInclude/markKeptPart/traceExtendMethod/checkPreserve", "trim.(*Trimmer).preProcess", "trim.(*Trimmer).traversal", "semantic re-check and re-resolve after trimming", "regexp / regexp2 call-outs on concrete comments and method names"},
+		Bounds:      "three-file program (a includes base and t; 15 struct-likes, typedefs, enum, constant, base service across an include); the field type of one struct and the result and argument types of one method are choices among 10 spellings (quick: 3 x 4 x 10 of the 1000 combinations, thorough: all; local, include-qualified, through typedefs, inside list/set/map), presence of a throws clause, @preserve comment, preserve on/off, extends, and the method filter (none, qualified exact name, unqualified name) are free",
+		Assumptions: []string{"all dimensions are finite choice spaces enumerated through the solver (regexp2/regexp operands must be concrete)", "the yaml configuration lookup of TrimAST is bypassed (doTrimAST is the entry)", "'generates compiling code with the same wire behaviour' is outside this check"},
+		Harnesses: []Harness{
+			{Func: "H_C16_trim", Quick: tuples3(seq(0, 2), []int64{0, 3, 9}, []int64{0, 2, 4, 8}), Thorough: tuples3(seq(0, 2), seq(0, 9), seq(0, 9)), Covers: []string{"end"}},
+		},
+	})
+	register(&Prop{
 		ID:          "C14",
 		HarnessDirs: []string{"c14"},
 		Pkg:         "github.com/cloudwego/thriftgo/fieldmask",
